@@ -14,6 +14,7 @@ import (
 	"os"
 	"path/filepath"
 	"sort"
+	"strings"
 	"sync"
 	"testing"
 	"time"
@@ -594,6 +595,34 @@ func c02DiffDumps(a, b map[string][]byte, skip func(k string, va, vb []byte) boo
 		}
 	}
 	return
+}
+
+// c02DiffClasses names the record classes on which two dumps differ ("mpt+root").
+func c02DiffClasses(a, b map[string][]byte, skip func(k string, va, vb []byte) bool) string {
+	set := map[string]bool{}
+	for _, m := range []map[string][]byte{a, b} {
+		for k := range m {
+			va, oka := a[k]
+			vb, okb := b[k]
+			if oka && okb && bytes.Equal(va, vb) {
+				continue
+			}
+			if skip != nil && skip(k, va, vb) {
+				continue
+			}
+			v := va
+			if !oka {
+				v = vb
+			}
+			set[c02Class(k, v)] = true
+		}
+	}
+	var cs []string
+	for c := range set {
+		cs = append(cs, c)
+	}
+	sort.Strings(cs)
+	return strings.Join(cs, "+")
 }
 
 func c02U32(b []byte) uint32 { return binary.LittleEndian.Uint32(b) }
